@@ -34,6 +34,9 @@ from .. import strshape as S
 from ..core import AnalysisError, FuncInfo, Repo, names_in
 
 _counter = itertools.count(1)
+# The engines cache by id(node) (cfg, reaching definitions, parents, provenance, types).  Every tree built here is kept alive for the
+# life of the process, so the identity of a discarded intermediate tree can never be handed to a new one (stale cache hits otherwise).
+_KEEP: List[object] = []
 SCOPES = (ast.FunctionDef, ast.AsyncFunctionDef, ast.Lambda, ast.ClassDef)
 COMPS = (ast.ListComp, ast.SetComp, ast.GeneratorExp, ast.DictComp)
 
@@ -202,7 +205,16 @@ def materialise_generators(repo: Repo, raw: FuncInfo, fn: ast.FunctionDef) -> bo
                 if isinstance(ch, SCOPES) or isinstance(ch, ast.stmt):
                     continue
                 if isinstance(ch, COMPS):
-                    # the first iterable of a comprehension is evaluated in the enclosing scope, but the engine handles that position
+                    # only the first iterable of a comprehension is evaluated in the enclosing scope: a generator call left there by the
+                    # engine is consumed like any other; the rest of the comprehension has its own variables and is not entered
+                    first = ch.generators[0].iter
+                    if isinstance(first, ast.Call):
+                        try:
+                            res = _resolve_generator(repo, raw, first)
+                        except Exception:
+                            res = None
+                        if res is not None:
+                            out.append(first)
                     continue
                 todo.append(ch)
                 if isinstance(ch, ast.Call):
@@ -795,6 +807,23 @@ def fuse_comprehensions(fn: ast.FunctionDef) -> bool:
         visit_GeneratorExp = visit_ListComp = visit_SetComp = visit_DictComp = _fuse
 
     T().visit(fn)
+
+    class Ident(ast.NodeTransformer):
+        """`[x for x in XS]` / `(x for x in XS)` (no condition) is `list(XS)`, `{x for x in XS}` is `set(XS)`: the same elements in the
+        same order (a generator expression consumed once is iterated like the list)"""
+        def _go(self, n):
+            self.generic_visit(n)
+            if len(n.generators) == 1 and not n.generators[0].ifs and not n.generators[0].is_async and isinstance(n.generators[0].target, ast.Name) \
+                    and isinstance(n.elt, ast.Name) and n.elt.id == n.generators[0].target.id:
+                changed[0] = True
+                return ast.copy_location(ast.Call(func=ast.Name(id="set" if isinstance(n, ast.SetComp) else "list", ctx=ast.Load()),
+                                                  args=[n.generators[0].iter], keywords=[]), n)
+            return n
+
+        visit_GeneratorExp = visit_ListComp = visit_SetComp = _go
+
+    if not any(isinstance(x, ast.Name) and x.id in ("list", "set") and not isinstance(x.ctx, ast.Load) for x in ast.walk(fn)):
+        Ident().visit(fn)
     if consumed:
         # the bindings of the generators that were written in place are dead
         def drop(stmts):
@@ -815,15 +844,71 @@ def fuse_comprehensions(fn: ast.FunctionDef) -> bool:
     return changed[0]
 
 
-# =============================================================================================== P6: x = x + E
+# =============================================================================================== P6: x = x + E  /  x += E
+def _string_like(e: ast.AST, single: Dict[str, ast.AST], depth: int = 0) -> bool:
+    """an expression that certainly evaluates to a str"""
+    if depth > 5:
+        return False
+    if isinstance(e, ast.Constant):
+        return isinstance(e.value, str)
+    if isinstance(e, ast.JoinedStr):
+        return True
+    if isinstance(e, ast.Call) and isinstance(e.func, ast.Attribute) and e.func.attr in ("join", "format", "format_map", "strip", "rstrip", "lstrip",
+                                                                                          "lower", "upper", "replace", "to_pddl"):
+        return e.func.attr != "to_pddl" or True
+    if isinstance(e, ast.Call) and isinstance(e.func, ast.Name) and e.func.id in ("str", "repr"):
+        return True
+    if isinstance(e, ast.BinOp) and isinstance(e.op, ast.Add):
+        return _string_like(e.left, single, depth + 1) or _string_like(e.right, single, depth + 1)
+    if isinstance(e, ast.BinOp) and isinstance(e.op, ast.Mod):
+        return _string_like(e.left, single, depth + 1)
+    if isinstance(e, ast.IfExp):
+        return _string_like(e.body, single, depth + 1) and _string_like(e.orelse, single, depth + 1)
+    if isinstance(e, ast.Name) and e.id in single:
+        return _string_like(single[e.id], single, depth + 1)
+    return False
+
+
 def self_extensions(fn: ast.FunctionDef) -> bool:
-    """`x = x + E` -> `x += E` ; `x = [*x, a, b]` -> `x += [a, b]` (the forms the engines read as accumulation)"""
+    """Accumulation is written the way both engines read it.
+    Loop-carried (the statement's own definition reaches it again): `x = x + E` -> `x += E`, `x = [*x, a]` -> `x += [a]` (the string-shape
+    engine reads `+=` in a loop as a repetition).
+    Not loop-carried, x a string: `x += E` -> `x = x + E` (strings are immutable, so this is exact; provenance then follows the previous
+    value through the concatenation instead of stopping at the augmented assignment)."""
     changed = [False]
+    try:
+        g = C.build(fn.body)         # not cfg_of: the tree is an intermediate one and is edited below
+        a = fn.args
+        params = [x.arg for x in a.posonlyargs + a.args + a.kwonlyargs]
+        rd = C.ReachingDefs(g, params)
+    except Exception:
+        return False
+    single = _single_bindings(fn)
+
+    def carried(st: ast.stmt, name: str) -> Optional[bool]:
+        n = g.node_of(st)
+        if n is None:
+            return None
+        try:
+            return n in rd.defs_reaching(n, name)
+        except Exception:
+            return None
+
+    string_names: Set[str] = set()
+    for n in ast.walk(fn):
+        if isinstance(n, ast.Assign) and len(n.targets) == 1 and isinstance(n.targets[0], ast.Name) and _string_like(n.value, single):
+            string_names.add(n.targets[0].id)
+        elif isinstance(n, ast.AnnAssign) and isinstance(n.target, ast.Name) and n.value is not None and _string_like(n.value, single):
+            string_names.add(n.target.id)
+        elif isinstance(n, ast.AugAssign) and isinstance(n.target, ast.Name) and isinstance(n.op, ast.Add) and _string_like(n.value, single):
+            string_names.add(n.target.id)
 
     class T(ast.NodeTransformer):
         def visit_Assign(self, n):
             if len(n.targets) == 1 and isinstance(n.targets[0], ast.Name):
                 x, v = n.targets[0].id, n.value
+                if carried(n, x) is not True:
+                    return n
                 if isinstance(v, ast.BinOp) and isinstance(v.op, ast.Add) and isinstance(v.left, ast.Name) and v.left.id == x \
                         and not any(isinstance(y, ast.Name) and y.id == x for y in ast.walk(v.right)):
                     changed[0] = True
@@ -833,6 +918,17 @@ def self_extensions(fn: ast.FunctionDef) -> bool:
                     changed[0] = True
                     rest = ast.copy_location(ast.List(elts=list(v.elts[1:]), ctx=ast.Load()), v)
                     return ast.copy_location(ast.AugAssign(target=ast.Name(id=x, ctx=ast.Store()), op=ast.Add(), value=rest), n)
+            return n
+
+        def visit_AugAssign(self, n):
+            if isinstance(n.target, ast.Name) and isinstance(n.op, ast.Add) and n.target.id in string_names and carried(n, n.target.id) is False:
+                x = n.target.id
+                changed[0] = True
+                new = ast.Assign(targets=[ast.Name(id=x, ctx=ast.Store())],
+                                 value=ast.BinOp(left=ast.Name(id=x, ctx=ast.Load()), op=ast.Add(), right=n.value))
+                ast.copy_location(new, n)
+                ast.fix_missing_locations(new)
+                return new
             return n
 
     T().visit(fn)
@@ -1164,6 +1260,7 @@ def _renormalise(repo: Repo, raw: FuncInfo, fn: ast.FunctionDef, inlined_qns: Op
             c._no_inline = True
     probe = FuncInfo(raw.mod, raw.cls, fn, static=raw.static)
     probe.qn = raw.qn
+    _KEEP.extend([fn, probe])
     already = set(inlined_qns or set()) | {raw.qn}
 
     class _Again(I.Flattener):
@@ -1200,6 +1297,7 @@ def normalise(repo: Repo, flat: FuncInfo, raw: Optional[FuncInfo] = None) -> Fun
         probe = FuncInfo(raw.mod, raw.cls, fn, static=raw.static)
         probe.qn = raw.qn
         probe.inlined_bodies = bodies
+        _KEEP.extend([fn, probe, cur])
         a = repair_lambda_parameters(fn)
         a = fold_foreign_constants(repo, probe, fn) or a
         b = materialise_generators(repo, raw, fn)
@@ -1218,10 +1316,12 @@ def normalise(repo: Repo, flat: FuncInfo, raw: Optional[FuncInfo] = None) -> Fun
         nxt = _renormalise(repo, raw, fn, {x[0] for x in bodies if isinstance(x, tuple) and x and isinstance(x[0], str)})
         if nxt is None:
             nxt = probe
+        _KEEP.append(nxt)
         bodies += [x for x in (getattr(nxt, "inlined_bodies", []) or []) if x not in bodies]
         inlined += [x for x in (getattr(nxt, "inlined", []) or []) if x not in inlined]
         cur = nxt
     final = copy.deepcopy(cur.node)
+    _KEEP.append(final)
     if templates_to_fstrings(final):
         ast.fix_missing_locations(final)
         nxt = FuncInfo(raw.mod, raw.cls, final, static=raw.static)
@@ -1278,6 +1378,7 @@ class Evaluator(S.Evaluator):
         it is evaluated where `at` is"""
         ast.copy_location(node, at)
         ast.fix_missing_locations(node)
+        _KEEP.append(node)
         try:
             n = self.p.node_of(at)
             for sub in ast.walk(node):
